@@ -355,7 +355,7 @@ func cmdCheck(args []string) int {
 	var samples []any
 	var knownOut []string
 	exit := 0
-	replayDir := filepath.Join(verifRoot, "replays", prop)
+	replayDir := filepath.Join(envOr("SCTPVC_REPLAY_DIR", filepath.Join(verifRoot, "replays")), prop)
 	for _, n := range names {
 		e := want[n]
 		r := got[n]
@@ -436,9 +436,10 @@ func cmdCheck(args []string) int {
 		"known_findings":           knownOut,
 		"undecided":                anchorLost,
 	}
-	os.MkdirAll(filepath.Join(verifRoot, "evidence"), 0o755)
+	evDir := envOr("SCTPVC_EVIDENCE_DIR", filepath.Join(verifRoot, "evidence"))
+	os.MkdirAll(evDir, 0o755)
 	data, _ := json.MarshalIndent(ev, "", " ")
-	os.WriteFile(filepath.Join(verifRoot, "evidence", prop+".json"), data, 0o644)
+	os.WriteFile(filepath.Join(evDir, prop+".json"), data, 0o644)
 	fmt.Printf("property=%s tier=%s obligations=%d discharged=%d known_findings=%d violations=%d undecided=%d wall=%.1fs\n", prop, *tier, nObl, discharged, len(knownOut), violations, len(anchorLost), time.Since(t0).Seconds())
 	return exit
 }
